@@ -27,6 +27,9 @@ class Cache:
     limit: int
     group_by: set[UUID]
     is_filtered: bool
+    # whether a `summarize` is part of the current query (`group_by` is empty for a
+    # summarize without grouping)
+    is_summarized: bool
 
     backend: type[TableImpl]
 
@@ -61,7 +64,8 @@ class Cache:
             + ",\n"
             + f"  limit={self.limit},\n"
             + f"  group_by={self.group_by},\n"
-            + f"  is_filtered={self.is_filtered},\n)"
+            + f"  is_filtered={self.is_filtered},\n"
+            + f"  is_summarized={self.is_summarized},\n)"
         )
 
     # For a column to be usable in an expression, the table it comes from must be an
@@ -87,6 +91,7 @@ class Cache:
             limit=0,
             group_by=set(),
             is_filtered=False,
+            is_summarized=False,
             backend=type(node),
         )
 
@@ -160,6 +165,7 @@ class Cache:
             res.uuid_to_name = {uid: name for name, uid in res.name_to_uuid.items()}
             res.group_by = res.group_by | set(res.partition_by)
             res.partition_by = []
+            res.is_summarized = True
 
         elif isinstance(node, verbs.SliceHead):
             res.limit = node.n
@@ -174,6 +180,7 @@ class Cache:
             res.derived_from = self.derived_from | right_cache.derived_from
             res.limit = 0
             res.group_by = set()
+            res.is_summarized = False
 
         elif isinstance(node, verbs.Union):
             assert right_cache is not None
@@ -189,6 +196,7 @@ class Cache:
             res.derived_from = self.derived_from | right_cache.derived_from
             res.limit = 0
             res.group_by = set()
+            res.is_summarized = False
 
         elif isinstance(node, verbs.SubqueryMarker):
             res.cols = {
@@ -204,6 +212,7 @@ class Cache:
             res.limit = 0
             res.group_by = set()
             res.is_filtered = False
+            res.is_summarized = False
 
         assert len(res.name_to_uuid) == len(res.uuid_to_name)
         res.derived_from = res.derived_from | {node}
@@ -257,7 +266,7 @@ class Cache:
             return "window function in `filter`"
 
         if isinstance(node, verbs.Summarize):
-            if self.group_by and self.group_by != set(self.partition_by):
+            if self.is_summarized:
                 return "nested summarize"
             if any(
                 (col.ftype(agg_is_window=False) in (Ftype.WINDOW, Ftype.AGGREGATE))
@@ -269,7 +278,7 @@ class Cache:
                 return "window function among grouping columns"
 
         if isinstance(node, verbs.Join):
-            if self.group_by:
+            if self.group_by or self.is_summarized:
                 return "join with a grouped table"
 
             if (node.how == "full" or (node.child not in self.derived_from and node.how == "left")) and any(
@@ -291,7 +300,7 @@ class Cache:
                 return "full join with a filtered table"
 
         if isinstance(node, verbs.Union):
-            if self.group_by:
+            if self.group_by or self.is_summarized:
                 return "union with a grouped table"
 
             if any(self.cols[uid].ftype() == Ftype.WINDOW for uid in self.uuid_to_name.keys()):
